@@ -10,7 +10,7 @@ from ..gen import K, Uids
 from ..core import expect_return
 from ..driver import Ctx, run, loop_mode, close_orphans
 from ..values import sig, mats
-from ..doubles import make_source, AClassSource
+from ..doubles import make_source, AClassSource, AClassNoCloseSource as SourceBaseNoClose
 from .. import env
 
 env.setup()
@@ -20,9 +20,11 @@ PROPERTY = "C07"
 LEVEL = "exploration"
 RULE = (
     "Model-based histories: Hypothesis draws an underlying iterator (async generator / class with aclose / "
-    "class without aclose / class with aclose+asend+athrow) over 0-8 items and up to 25 operations from "
+    "class without aclose / class with aclose+asend+athrow / with aclose+asend only / with asend+athrow but no "
+    "aclose) over 0-8 items and up to 25 operations from "
     "{next on a handle, next on the underlying, asend through a handle, close a handle, close iter(handle), "
-    "hand a handle to tool T (22 tools/aggregations) take j items and close T or abandon it, drop a handle "
+    "hand a handle to tool T (32 tools/aggregations, six of them failing half-way because their callable "
+    "raises) take j items and close T or abandon it, drop a handle "
     "and collect garbage, borrow the underlying or re-borrow a handle}. Model: one shared synchronous "
     "iterator over the same items; tool rules run the stdlib namesake on the model iterator. After every "
     "operation: the underlying was never closed; every item obtained anywhere is exactly next(model) "
@@ -47,8 +49,47 @@ class SendSource(AClassSource):
         raise exc
 
 
+class SendOnlySource(AClassSource):
+    """aclose + asend but NO athrow (not a full generator interface)"""
+
+    async def asend(self, value):
+        return await self.__anext__()
+
+
+class SendNoCloseSource(SourceBaseNoClose):
+    """asend + athrow but NO aclose"""
+
+    async def asend(self, value):
+        return await self.__anext__()
+
+    async def athrow(self, exc):
+        raise exc
+
+
+class ToolError(Exception):
+    pass
+
+
 def _last(*args):
     return args[-1]
+
+
+def _boom_at(k):
+    def fn(*args):
+        if args[-1].key == k:
+            raise ToolError(k)
+        return args[-1]
+
+    return fn
+
+
+def _boom_pred(k):
+    def fn(item):
+        if item.key == k:
+            raise ToolError(k)
+        return True
+
+    return fn
 
 
 # name -> (async builder(handle, k), sync builder(model_iter, k), is_aggregation)
@@ -74,6 +115,15 @@ TOOLS7 = {
     "merge": (lambda h, k: a.merge(h, key=lambda x: 0), lambda m, k: heapq.merge(m, key=lambda x: 0), False),
     "cycle": (lambda h, k: a.cycle(h), lambda m, k: itertools.cycle(m), False),
     "tee": (lambda h, k: a.tee(h, 1)[0], lambda m, k: itertools.tee(m, 1)[0], False),
+    # tools that fail half-way (the callable raises at the first item whose key is k)
+    "map-raises": (lambda h, k: a.map(_boom_at(k), h), lambda m, k: map(_boom_at(k), m), False),
+    "takewhile-raises": (lambda h, k: a.takewhile(_boom_pred(k), h), lambda m, k: itertools.takewhile(_boom_pred(k), m), False),
+    "filter-raises": (lambda h, k: a.filter(_boom_pred(k), h), lambda m, k: filter(_boom_pred(k), m), False),
+    "accumulate-raises": (lambda h, k: a.accumulate(h, _boom_at(k), initial=0), lambda m, k: itertools.accumulate(m, _boom_at(k), initial=0), False),
+    "reduce-raises": (lambda h, k: a.reduce(_boom_at(k), h, None), lambda m, k: __import__("functools").reduce(_boom_at(k), m, None), True),
+    "min-key-raises": (lambda h, k: a.min(h, key=_boom_pred(k), default=None), lambda m, k: min(m, key=_boom_pred(k), default=None), True),
+    # (sorted with a failing key is left out: the stdlib collects the whole input before calling key,
+    #  asyncstdlib interleaves - how much a FAILING sorted consumed is not something C07/C08 pin down)
     "list": (lambda h, k: a.list(h), lambda m, k: list(m), True),
     "any": (lambda h, k: a.any(a.map(lambda x: x.key == k, h)), lambda m, k: any(map(lambda x: x.key == k, m)), True),
     "min": (lambda h, k: a.min(h, key=lambda x: x.key, default=None), lambda m, k: min(m, key=lambda x: x.key, default=None), True),
@@ -106,7 +156,8 @@ def histories(draw, tier):
         st.tuples(st.just("borrow"), st.just(-1)),
     )
     ops = [list(o) for o in draw(st.lists(op, max_size=nops))]
-    return {"items": items, "kind": draw(st.sampled_from(["agen", "aclass", "aclass_noclose", "send"])),
+    return {"items": items, "kind": draw(st.sampled_from(["agen", "agen", "aclass", "aclass_noclose", "send",
+                                                             "send_only", "send_noclose"])),
             "mode": draw(st.sampled_from(["hooks", "bare"])), "ops": [["borrow", -1]] + ops}
 
 
@@ -140,6 +191,10 @@ def check(case):
     kind = case["kind"]
     if kind == "send":
         src = SendSource(ctx, "u", items, {})
+    elif kind == "send_only":
+        src = SendOnlySource(ctx, "u", items, {})
+    elif kind == "send_noclose":
+        src = SendNoCloseSource(ctx, "u", items, {})
     else:
         src = make_source(ctx, "u", items, {"fl": kind}, "a")
     underlying = src.obj
@@ -157,7 +212,7 @@ def check(case):
     def underlying_closed():
         if kind == "agen":
             return src.close_calls > 0 or (underlying.ag_frame is None and not src.exhausted)
-        return src.close_calls > 0 or src.closed
+        return src.close_calls > 0 or bool(getattr(src, "closed", False))
 
     async def pull(h, via):
         """advance handle h via __anext__ or asend; compare with the model"""
